@@ -520,6 +520,8 @@ def run(ck: Check, prog: Program) -> None:
     # the binder sees the params object exactly as sent (a member sent as null is a member)
     from .c04 import _bind_strict
     _bind_strict(ck, prog)
+    from . import borrow
+    borrow(ck, prog, 'C14', {'VALID-ORDER'}, 'what is published is what binds: validate_method binds on every path before it returns, whatever the signature looks like')
     # SIG-SOURCE
     _sig_source(ck, prog)
 
